@@ -21,16 +21,37 @@ type evBegin struct {
 }
 
 type evNode struct {
-	Ev   string `json:"ev"` // "enter" | "leaf"
+	Ev      string `json:"ev"` // "enter" | "leaf"
+	tokText string
+	ID      int    `json:"id"`
+	Par     int    `json:"par"`
+	From    int    `json:"from"`
+	To      int    `json:"to"`
+	NC      int    `json:"nc"`
+	Text    []int  `json:"text"` // bytes of SourceText(node) (sources up to shipBytesUpTo bytes)
+	TL      int    `json:"-"`    // len(SourceText)
+	Kind    string `json:"-"`    // Go type; coverage and finding keys only: not shipped to TLC
+}
+
+// evNodeLong is the node line of a long source: the byte comparison is evaluated here.
+type evNodeLong struct {
+	Ev   string `json:"ev"`
 	ID   int    `json:"id"`
 	Par  int    `json:"par"`
 	From int    `json:"from"`
 	To   int    `json:"to"`
 	NC   int    `json:"nc"`
-	Text []int  `json:"text"` // bytes of SourceText(node) when the source is shipped, else []
-	Tok  bool   `json:"tok"`  // primitive evaluated here for long inputs: SourceText == src[from:to]
-	TL   int    `json:"tl"`   // len(SourceText)
-	Kind string `json:"kind"` // Go type; coverage only, never in a guard
+	Tok  bool   `json:"tok"` // primitive: SourceText(node) == src[from:to]
+	TL   int    `json:"tl"`  // len(SourceText(node))
+}
+
+// line is what is shipped for a node.
+func (e evNode) line(ship bool, src string) any {
+	if ship {
+		return e
+	}
+	tok := 0 <= e.From && e.From <= e.To && e.To <= len(src) && e.tokText == src[e.From:e.To]
+	return evNodeLong{e.Ev, e.ID, e.Par, e.From, e.To, e.NC, tok, e.TL}
 }
 
 type evErr struct {
@@ -125,7 +146,7 @@ func walkTree(src string) walked {
 		if ship {
 			e.Text = toInts(text)
 		} else {
-			e.Tok = 0 <= r.From && r.From <= r.To && r.To <= len(src) && src[r.From:r.To] == text
+			e.tokText = text
 		}
 		w.nodes++
 		if len(ch) == 0 {
